@@ -450,6 +450,9 @@ func (r *RPC) SubmitP2PNotaryRequest(req *payload.P2PNotaryRequest) (util.Uint25
 	r.c.mu.Lock()
 	defer r.c.mu.Unlock()
 	r.count("SubmitP2PNotaryRequest")
+	if os.Getenv("SPIKE_DUMPNR") != "" {
+		fmt.Printf("NR h=%d m=%d script=%x\n", r.c.bc.BlockHeight(), r.member, req.MainTransaction.Script)
+	}
 	bc := r.c.bc
 	verify := func(_ *transaction.Transaction, data any) error {
 		rq := data.(*payload.P2PNotaryRequest)
